@@ -14,7 +14,10 @@ RULE = ("random BQM (v1/v2, float32/float64, ignore_labels), QM, CQM (zip, store
         "fileview.load and bucketed {exception, equal, different, crash, hang}; BQM and QM prefixes are also decoded by the Coq "
         "model and the buckets compared; cqm_member cases keep the zip container VALID and cut one member handled by a raw-buffer "
         "loader (varinfo, objective, a constraint's lhs) at every length: ordinary exception or equal model required, and the Coq "
-        "expression / varinfo decoder must agree on the bucket; a case is non-trivial when the file is longer than one header block")
+        "expression / varinfo decoder must agree on the bucket; cqm_legacy / cqm_legacy_member: the same two streams on CQM "
+        "serialization versions 1.0-1.3 written by hand (codecgen.legacy_cqm_bytes; read by _from_file_legacy), the cut member "
+        "being a whole QM or BQM file (objective, a constraint's lhs) decoded by the Coq QM / BQM decoder; "
+        "a case is non-trivial when the file is longer than one header block")
 TRUSTED = ["model: coq/theories/Model/Codec.v, ChkC10.v", "translators/codec_constants.py -> Gen/Gen_Codec.v",
            "harness/prefix_runner.py + harness/codecgen.py state_of(): the equality used for the 'equal model' bucket",
            "zip / npz containers are not modelled: their truncation behaviour is observed on the implementation only; cqm_member "
